@@ -103,7 +103,24 @@ static void run_cba(const char *line) {
     clockbound_now_result res; memset(&res, 0, sizeof res);
     vclock_on = 1;
     const clockbound_err *e = clockbound_now(cba_ctx, &res);
+    /* the same call again: same segment content (same generation), same clock readings */
+    clockbound_now_result res2; memset(&res2, 0, sizeof res2);
+    clockbound_err_kind k1 = e ? e->kind : CLOCKBOUND_ERR_NONE;
+    const clockbound_err *e2 = clockbound_now(cba_ctx, &res2);
+    clockbound_err_kind k2 = e2 ? e2->kind : CLOCKBOUND_ERR_NONE;
     vclock_on = 0;
+    if (k1 != k2 || (!e && memcmp(&res, &res2, sizeof res) != 0)) {
+        printf("MISMATCH client=[");
+        if (e) printf("err %s", kind_name(k1));
+        else printf("ok %lld %lld %lld %lld %d", (long long)res.earliest.tv_sec, (long long)res.earliest.tv_nsec,
+                    (long long)res.latest.tv_sec, (long long)res.latest.tv_nsec, (int)res.clock_status);
+        printf("] same-call-repeated=[");
+        if (e2) printf("err %s", kind_name(k2));
+        else printf("ok %lld %lld %lld %lld %d", (long long)res2.earliest.tv_sec, (long long)res2.earliest.tv_nsec,
+                    (long long)res2.latest.tv_sec, (long long)res2.latest.tv_nsec, (int)res2.clock_status);
+        printf("]\n");
+        return;
+    }
     if (e) printf("err %s\n", kind_name(e->kind));
     else printf("ok %lld %lld %lld %lld %d\n", (long long)res.earliest.tv_sec, (long long)res.earliest.tv_nsec,
                 (long long)res.latest.tv_sec, (long long)res.latest.tv_nsec, (int)res.clock_status);
